@@ -1078,16 +1078,18 @@ class StoreWorld:
         store_search.search_op(self, 'bt')
 
     # -- oracles over the catalogue ----------------------------------------------------------
-    def check_all(self, why):
-        self.check_catalogue(why)
+    def check_all(self, why, cat=None, reopened=False, crashed=False):
+        """one reading of the six tables (through the real shelve/dbm.dumb API) serves all three oracles"""
+        cat = cat or self.catalogue()
+        self.check_catalogue(why, reopened=reopened, crashed=crashed, cat=cat)
         if self.stopped:
             return
-        self.audit(why)
+        self.audit(why, cat=cat)
         if self.stopped:
             return
         from worlds import store_c07
 
-        store_c07.check_store(self, why)
+        store_c07.check_store(self, why, crashed=crashed, cat=cat)
 
     def resync(self):
         """after an operation failed half-way the model is rebuilt from the catalogue (the violation was reported)"""
@@ -1098,7 +1100,7 @@ class StoreWorld:
             if k not in keys:
                 del self.model.prime[k]
 
-    def check_catalogue(self, why, reopened=False, crashed=False):
+    def check_catalogue(self, why, reopened=False, crashed=False, cat=None):
         """C08 clause 1, after every operation and every reopen.
         Leniency: after a dirty crash names registered by un-acknowledged requests may be missing; surviving
         names must keep their ids."""
@@ -1106,7 +1108,7 @@ class StoreWorld:
         from dawgie.db.shelve.state import DBI
 
         dbi = DBI()
-        cat = self.catalogue()
+        cat = cat or self.catalogue()
         idx = {n: list(getattr(dbi.indices, n)) for n in env.TABLES if n != 'prime'}
         for kind, tn, msg in cat.check_bijection(idx):
             self.violate('C08', 'table_' + kind, 'after_reopen' if reopened else 'history', f'[{why}] table {tn}: {msg}')
@@ -1141,10 +1143,10 @@ class StoreWorld:
             self.probes['catalogue_checked_after_reopen'] += 1
         self.probes['catalogue_checked'] += 1
 
-    def audit(self, why):
+    def audit(self, why, cat=None):
         """model against the primary table, read directly (DESIGN C06 "never different"): at quiet points every
         definite model entry is present with the model's blob name, every entry present is one the model knows"""
-        cat = self.catalogue()
+        cat = cat or self.catalogue()
         rows, _ = cat.resolve()
         have = {}
         for r in rows:
